@@ -21,9 +21,10 @@ import vlib
 NPARTS = 3
 
 
-def cfg_text(maxb, nd, rule="fixed", pr=0, inv=True, init="probe"):
+def cfg_text(maxb, nd, rule="fixed", pr=0, inv=True, init="probe", cr=0, shift="whenCurrent"):
     t = ('CONSTANTS MaxBackups = %d NDumps = %d NParts = %d StartRule = "%s" ProcRestarts = %d InitRule = "%s"\n'
-         'SPECIFICATION Spec\nCHECK_DEADLOCK FALSE\n' % (maxb, nd, NPARTS, rule, pr, init))
+         'CrashRestarts = %d ShiftRule = "%s"\n'
+         'SPECIFICATION Spec\nCHECK_DEADLOCK FALSE\n' % (maxb, nd, NPARTS, rule, pr, init, cr, shift))
     if inv:
         t += "INVARIANTS NeverAborts AfterDump CrashSafe BackupsComplete CountersOK\n"
     return t
@@ -148,11 +149,27 @@ def run(c):
         scen.append((m, "ddddd" + "pd" + "pd", "-", 0, None, True))
         os.remove(dot)
 
+    # recovery: the process died inside a dump (every crash point found above); a NEW process is started in the folder
+    # the crash left behind and takes further dumps (script "pre+post").  Layer B with CrashRestarts = 1 is model-checked
+    # (BackupsComplete is not demanded here: the file of the interrupted dump is rotated like any other)
+    for m in ([1, 2, 3] if tier == "quick" else [1, 2, 3, 4, 5, 6]):
+        nd = m + 4
+        cfg = os.path.join(rd, "RRc_%d.cfg" % m)
+        open(cfg, "w").write(cfg_text(m, nd, cr=1).replace(" BackupsComplete", ""))
+        r = vlib.tlc_model("RestartRotation.tla", cfg, rd, workers=2, timeout=900, must_take=("CrashRestart", "Crash", "Close"))
+        c.add_model("RestartRotation with recovery after a crash", r, "MaxBackups=%d NDumps=%d CrashRestarts=1" % (m, nd))
+    nrec = 0
+    for (m, s, pt, at, fs, pr) in list(scen):
+        if pt != "-" and m >= 1 and not pr and len(s) <= m + 2:
+            scen.append((m, s + "+" + "d" * (m + 2), pt, at, None, False))
+            nrec += 1
+    c.cov["recovery_scenarios"] = nrec
+
     # ---- 2. run the real code ----------------------------------------------
     sfile = os.path.join(rd, "scen.txt")
     with open(sfile, "w") as f:
         for (m, s, pt, at, fs, pr) in scen:
-            f.write("%d %s %s %d\n" % (m, s, pt, at))
+            f.write("%d %s %s %d %s\n" % (m, s.split("+")[0], pt, at, s.split("+")[1] if "+" in s else ""))
     out = os.path.join(rd, "rot.ndjson")
     rc, o = vlib.sh("%s %s %s %s" % (exe, rd, sfile, out), timeout=3000)
     if rc != 0:
@@ -234,7 +251,8 @@ def run(c):
     c.cov["selftest"] = "corrupted backup version rejected: " + st
 
     c.cov["rule"] = ("one scenario per Crash transition of the Layer-B graph (+ crash-free runs, + clean "
-                     "process restarts); non-trivial = crash inside the second or a later dump")
+                     "process restarts, + for every crash point a recovery: new process in the folder, MaxBackups + 2 further "
+                     "dumps); non-trivial = crash inside the second or a later dump")
     c.cov["exhaustive"] = True
     c.cov["explanation"] = ("every crash point of every dump for MaxBackups in %s, up to %d dumps" %
                             (maxes, ndumps_for(maxes[-1])))
